@@ -24,10 +24,10 @@ def scheduler_stage(ctx):
         ctx.guards[g] = (f"load-bearing on {b}: {w['invariant']} at depth {w['depth']}" if w["found"] else f"no counterexample on {b}")
         if not w["found"]:
             raise ToolError(f"vacuity: without {g} no coordinator is stranded on {b}")
-        se.replay_witness(ctx, w, "C17", also=("C05",), extra_runs=4 if quick else 30)
+        se.replay_witness(ctx, w, "C17", also=("C05",), extra_runs=ctx.n(4, 30))
     names = ["chain2", "rmw3", "dd3", "fatal_in_order2", "stale_fatal2", "grow_shrink3"]
     for workers in (1, 2, 3):
-        r, out, args = se.controlled(ctx, names, 25 if quick else 1500, workers=workers, tag=f"sched_w{workers}")
+        r, out, args = se.controlled(ctx, names, ctx.n(25, 1500), workers=workers, tag=f"sched_w{workers}")
         se.report(ctx, r, args, "C17", also=("C05",))
         se.validate(ctx, r, out, f"sched_trace_w{workers}", workers=workers)
 
